@@ -112,6 +112,10 @@ finding("C06-transform-a-unset-nounset", "C06", "`${v@a}` of an unset variable u
 finding("C06-array-slices", "C06", "`${a[@]:o:l}` on sparse / associative arrays, `${@@A}`, `${a[@]@a}` differ from bash",
         all=["kind:array"])
 
+finding("C06-patsub-replacement-amp", "C06", "bash 5.2 (`patsub_replacement`, on by default) replaces an unquoted `&` in the replacement of ${v/p/r} by the matched text; brush inserts a literal `&`",
+        all=["replacement", "rep:unquoted-amp"], why="a missing feature (needs quoting information of the replacement word at substitution time), not a slip")
+finding("C06-patsub-replacement-backslash", "C06", "same feature: in an unquoted replacement `\\\\` stands for one backslash (and `\\&` for `&`); brush keeps both characters",
+        all=["replacement", "rep:backslash"], why="part of the same missing feature")
 # ---------------------------------------------------------------------------------------------- C07
 finding("C07-declare-i", "C07", "`declare -i d; d=<expr>` does not evaluate the expression",
         all=["ctx:declare-i"], why=PINNED + " ('Integer variable evaluates arithmetic on assignment')")
